@@ -15,12 +15,20 @@ import (
 //	"(i, v) in items"
 func parseFor(s string) ([]string, string, error) {
 	s = strings.TrimSpace(s)
-	parts := strings.SplitN(s, " in ", 2)
-	if len(parts) != 2 {
+	// The keyword is the first "in" with white space on both sides; a header wrapped over
+	// several lines has a line break or a tab there instead of a blank.
+	at := -1
+	for i := 1; i+2 < len(s); i++ {
+		if s[i] == 'i' && s[i+1] == 'n' && isForSpace(s[i-1]) && isForSpace(s[i+2]) {
+			at = i
+			break
+		}
+	}
+	if at < 0 {
 		return nil, "", fmt.Errorf("invalid v-for expression: %q", s)
 	}
-	left := strings.TrimSpace(parts[0])
-	right := strings.TrimSpace(parts[1])
+	left := strings.TrimSpace(s[:at])
+	right := strings.TrimSpace(s[at+2:])
 
 	var vars []string
 	if strings.HasPrefix(left, "(") && strings.HasSuffix(left, ")") {
@@ -35,6 +43,11 @@ func parseFor(s string) ([]string, string, error) {
 		return nil, "", fmt.Errorf("no iteration variables in v-for: %q", s)
 	}
 	return vars, right, nil
+}
+
+// isForSpace reports whether c separates the parts of a v-for header.
+func isForSpace(c byte) bool {
+	return c == ' ' || c == '\t' || c == '\n' || c == '\r'
 }
 
 // propagateTemplateAttributes recursively finds template elements with bound attributes
